@@ -28,7 +28,7 @@ struct PruningStorer
   invariant wired: !isNil(cacher)
   invariant newest-open: activePersisters[0] != nil && !isNil(activePersisters[0].persister)
   invariant open: forall k :: 0 <= k && k < len(activePersisters) ==> activePersisters[idf(k)] != nil && !isNil(activePersisters[idf(k)].persister)
-  invariant distinct: forall k, l :: 0 <= k && k < l && l < len(activePersisters) ==> pid(activePersisters[k].persister) != pid(activePersisters[l].persister)
+  invariant distinct: forall k, l :: 0 <= k && k < l && l < len(activePersisters) ==> pid(activePersisters[idf(k)].persister) != pid(activePersisters[idf(l)].persister)
 
 // ---- persisterData: every access of persister / isClosed under the embedded RWMutex ------------------------------
 func (pd *persisterData) getIsClosed() (r bool)
@@ -62,7 +62,7 @@ func (ps *PruningStorer) Remove(key []byte) (err error)
   requires inv(ps)
   ensures removed-from-cache: ccell(ps.cacher, str(key))[0] == 0
   ensures removed-from-every-active-persister: err == nil ==>
-    (forall k :: 0 <= k && k < len(ps.activePersisters) ==> pcell(ps.activePersisters[k].persister, str(key))[0] == 0)
+    (forall k :: 0 <= k && k < len(ps.activePersisters) ==> pcell(ps.activePersisters[idf(k)].persister, str(key))[0] == 0)
   ensures lock-released: !held(ps.lock) && !heldR(ps.lock)
 
 loop 1
@@ -74,7 +74,9 @@ loop 1
   invariant forall k :: 0 <= k && k < len(ps.activePersisters) ==> ps.activePersisters[k] == old(ps.activePersisters[k])
   invariant inv(ps)
   invariant ccell(ps.cacher, str(key))[0] == 0
-  invariant rangeindex == -1 || err != nil
+  // the repaired loop visits every active persister; err stays nil only while every Remove succeeded (indexes go through idf,
+  // the identity, so that the solvers have the ground terms to instantiate this invariant and inv.distinct with)
+  invariant err == nil ==> (forall k :: 0 <= k && k <= rangeindex ==> pcell(ps.activePersisters[idf(k)].persister, str(key))[0] == 0)
   // instance of inv.open for the next element (helps the solvers: the code indexes with a wrapped rangeindex+1)
   invariant rangeindex + 1 < len(ps.activePersisters) ==> (ps.activePersisters[idf(rangeindex + 1)] != nil && !isNil(ps.activePersisters[idf(rangeindex + 1)].persister))
 
@@ -98,7 +100,7 @@ func (ps *PruningStorer) Has(key []byte) (err error)
   trusted    // `defer ps.lock.RUnlock()` after an early return = conditional defer: outside the engine's subset
   requires inv(ps)
   ensures absent-everywhere-is-not-found: (ccell(ps.cacher, str(key))[0] == 0 &&
-    (forall k :: 0 <= k && k < len(ps.activePersisters) ==> pcell(ps.activePersisters[k].persister, str(key))[0] == 0)) ==> err != nil
+    (forall k :: 0 <= k && k < len(ps.activePersisters) ==> pcell(ps.activePersisters[idf(k)].persister, str(key))[0] == 0)) ==> err != nil
   ensures found-is-cached-or-held: err == nil ==> (ccell(ps.cacher, str(key))[0] == 1 ||
     (exists k :: 0 <= k && k < len(ps.activePersisters) && pHolds(ps.activePersisters[k].persister, str(key))))
   ensures lock-released: !held(ps.lock) && !heldR(ps.lock)
